@@ -30,7 +30,7 @@ PROFILE = {
 }
 
 
-E2_PROFILE = {'weights': {'app': 16, 'prio': 4, 'down': 2, 'rm': 3, 'finish': 2, 'freezeflip': 3}, 'force': ['freezeflip'], 'demand_hi': 10, 'pre': (3, 12)}
+E2_PROFILE = {'weights': {'app': 16, 'prio': 4, 'down': 2, 'rm': 3, 'finish': 2, 'freezeflip': 3, 'cellev': 4, 'reparent': 2}, 'force': ['freezeflip', 'cellev'], 'demand_hi': 10, 'pre': (3, 12)}
 
 
 def strategy(tier):
